@@ -77,6 +77,13 @@ def _small_c07(args):
                     out.append(x_arith.observe_arith(fx, np, [pid], op, tx, ty, [a], [b], scalar=True, dirty=('element' if (a + b + idx) % 2 else False)))
     if idx % 4 == 0 or tier == 'thorough':
         out += _broadcast(fx, np, pid, tx, ty)
+    # EXTENSION beyond the property (extra conformance, never a verdict of C07): complex operands, every 4-tuple of component corners
+    if idx % 6 == 0 and tx[1] >= 1 and ty[1] >= 1:
+        cx_, cy_ = corners(tx)[:3], corners(ty)[:3]
+        quads = [(a, b, c, d) for a in cx_ for b in cx_ for c in cy_ for d in cy_]
+        for op in ('add', 'sub', 'mul'):
+            out.append(x_arith.observe_carith(fx, np, [pid], op, tx, ty, [q[0] for q in quads], [q[1] for q in quads], [q[2] for q in quads],
+                                              [q[3] for q in quads], route=['operator', 'function'][idx % 2]))
     return _tag(out)
 
 
